@@ -358,7 +358,11 @@ func c07Alphabet(s c07Snapshot, w *c07World, thorough bool) []c07Op {
 		for _, a := range []string{"none", "fresh", "existing", "own", "short", "nonhex"} {
 			ops = append(ops, c07Op{K: "newversion", N: n, A: a})
 		}
-		for _, name := range []string{"b1", "b2", "", "master"} {
+		names := []string{"b1", "b2", "", "master", " master"} // " master": a name that only differs from the reserved one by white space
+		if thorough {
+			names = append(names, "b1 ", "master\t")
+		}
+		for _, name := range names {
 			ops = append(ops, c07Op{K: "branch", N: n, A: name, B: "none"})
 		}
 		ops = append(ops, c07Op{K: "branch", N: n, A: "b1", B: "existing"}, c07Op{K: "branch", N: n, A: "b2", B: "own"})
@@ -544,6 +548,26 @@ func c07Invariants(s c07Snapshot, w *c07World) [][2]string {
 		if h, ok := d.BranchToUUID[w.roots[k.repo]+k.name]; ok && h != s.Nodes[leaves[0]].UUID {
 			hi, known := byU[h]
 			add("branch-head", "recorded head of branch %q is n%d (%v), the chain's leaf is n%d", k.name, hi, known, leaves[0])
+		}
+	}
+	// the recorded head of a branch is a version of that branch ("master" is recorded for the unnamed default branch)
+	for key, h := range d.BranchToUUID {
+		for ri, root := range w.roots {
+			if root == "" || !strings.HasPrefix(key, root) {
+				continue
+			}
+			name := strings.TrimPrefix(key, root)
+			hi, known := byU[h]
+			if !known {
+				continue // reported by the uuid invariants
+			}
+			want := name
+			if name == "master" {
+				want = ""
+			}
+			if s.Nodes[hi].Branch != want {
+				add("branch-head-foreign", "repo %d: the recorded head of branch %q is n%d, which is on branch %q", ri, name, hi, s.Nodes[hi].Branch)
+			}
 		}
 	}
 	return bad
